@@ -104,4 +104,45 @@ structure Vector where
   size : Int
 deriving DecidableEq, Repr
 
+/-! ### functions with effects (tools/x2l_st.py)
+
+A translated function that writes members of `*this`, throws, loops or calls such a function is a state
+transformer `f [fuel] [self] args : Outcome σ ρ` (σ = the record of `*this`, `Unit` for a free function;
+ρ = the return type, `Unit` for `void`). -/
+
+/-- how a call of a translated function with effects ends -/
+inductive Outcome (σ ρ : Type) where
+  /-- the call returned `r`; the object is in state `s` -/
+  | normal (s : σ) (r : ρ)
+  /-- an exception of class `exc` left the function; the object is in state `s` -/
+  | thrown (exc : String) (s : σ)
+  /-- a loop did not finish within the fuel -/
+  | nofuel
+deriving DecidableEq, Repr
+
+/-- sequencing after a call of a function with effects on the sub-object that `put` writes back into
+    the caller's state: the callee's exception propagates with the caller's state updated -/
+def Outcome.bindLift {τ σ α β : Type} (o : Outcome τ α) (put : τ → σ) (k : σ → α → Outcome σ β) : Outcome σ β :=
+  match o with
+  | .normal t r => k (put t) r
+  | .thrown e t => .thrown e (put t)
+  | .nofuel => .nofuel
+
+/-- definedness of what follows a call: only looked at when the call returns normally -/
+def Outcome.okAnd {τ σ α : Type} (o : Outcome τ α) (put : τ → σ) (k : σ → α → Bool) : Bool :=
+  match o with
+  | .normal t r => k (put t) r
+  | _ => true
+
+/-- what follows a loop (`none` = out of fuel) -/
+def Outcome.ofOpt {σ α β : Type} (o : Option α) (k : α → Outcome σ β) : Outcome σ β :=
+  match o with
+  | some a => k a
+  | none => .nofuel
+
+def optAnd {α : Type} (o : Option α) (k : α → Bool) : Bool :=
+  match o with
+  | some a => k a
+  | none => true
+
 end Osmium.CxxSem
